@@ -63,6 +63,9 @@ func selectorData() []namedNode {
 		{`"ab"`, nStr("ab")},
 		{`"héllo"`, nStr("héllo")},
 		{`"日本語x"`, nStr("日本語x")},
+		{`"abcé"`, nStr("abcé")},
+		{`"é"`, nStr("é")},
+		{`"abcdéf→"`, nStr("abcdéf→")},
 		{"bytes()", nBytes([]byte{})},
 		{"bytes(1,2,3)", nBytes([]byte{1, 2, 3})},
 		{"bytes(255)", nBytes([]byte{255})},
@@ -71,6 +74,8 @@ func selectorData() []namedNode {
 		{"[1]", nList(nInt(1))},
 		{"[1,2,3]", nList(nInt(1), nInt(2), nInt(3))},
 		{"[1,2,3,4,5,6]", nList(nInt(1), nInt(2), nInt(3), nInt(4), nInt(5), nInt(6))},
+		{"[0..12]", nList(nInt(0), nInt(1), nInt(2), nInt(3), nInt(4), nInt(5), nInt(6), nInt(7), nInt(8), nInt(9), nInt(10), nInt(11), nInt(12))},
+		{"bytes(0..12)", nBytes([]byte{0, 1, 2, 3, 4, 5, 6, 7, 8, 9, 10, 11, 12})},
 		{"[[1,2],[3]]", nList(nList(nInt(1), nInt(2)), nList(nInt(3)))},
 		{"[{a:1},{a:2}]", nList(nMap(kv{"a", nInt(1)}), nMap(kv{"a", nInt(2)}))},
 		{`["xy",bytes(9,8)]`, nList(nStr("xy"), nBytes([]byte{9, 8}))},
